@@ -151,6 +151,11 @@ func CallFor(t *rapid.T, s recipe.Sig, depth, width int) recipe.Call {
 			}
 		case recipe.PRune:
 			c.Val = recipe.Rune(rapid.Rune().Draw(t, "rune"))
+			if rapid.IntRange(0, 7).Draw(t, "oddrune") == 3 {
+				// values that are no code points (a rune is any int32): whatever LitRune makes of them, every form
+				// of it makes the same
+				c.Val = recipe.Rune(rapid.SampledFrom([]rune{0xD800, 0xDFFF, 0x110000, -1, 0x7fffffff, 0xFFFD, 0}).Draw(t, "oddrunevalue"))
+			}
 		case recipe.PByte:
 			c.Val = recipe.Byte(rapid.Byte().Draw(t, "byte"))
 		case recipe.PTagMap:
